@@ -172,6 +172,26 @@ def composite_number_density_is_volume_weighted_mean(k: int, a1: float, b1: floa
             assert eq(h[n], mean[n])
 
 
+@lemma(overrides=OV, stubs=ST, gen=dict(GEN3, v2=(-5.0, -0.001), v1=(3.0, 500.0)))
+def composite_with_a_child_of_negative_volume_accounts_like_its_leaves(a1: float, b1: float, v1: float, b2: float, c2: float, v2: float, a3: float, b3: float, c3: float, v3: float):
+    """A child may have a NEGATIVE volume (the gap component whose negative area compensates the overlap of its hot
+    neighbours): volume, atoms, number densities and mass of the parent are still the signed sums / the signed
+    volume-weighted mean over ALL children, so density x volume = mass and atoms agree between the levels."""
+    weights_positive()
+    assume(v1 > 0 and v2 < 0 and v3 > 0 and v1 + v2 + v3 > 0)
+    kids, nd, vol = three_children(3, a1, b1, v1, b2, c2, v2, a3, b3, c3, v3)
+    o = composite(Composite, kids)
+    V = v1 + v2 + v3
+    assert eq(o.getVolume(), V), "volume = signed sum of the children's volumes"
+    mean = {n: sum(nd[i][n] * vol[i] for i in range(3)) / V for n in ("A", "B", "C", "D")}
+    for n in ("A", "B", "C"):
+        assert eq(o.getNumberDensity(n), mean[n]), "number density = signed volume-weighted mean over all children"
+        assert eq(o.getNumberDensity(n) * o.getVolume(), sum(c.getNumberDensity(n) * c.getVolume() for c in kids)), "atoms agree"
+    assert eq(list(o.getNuclideNumberDensities(["C", "D", "A"])), [mean["C"], 0.0, mean["A"]])
+    assert eq(o.getMass(), sum(c.getMass() for c in kids)), "mass = sum of the children's masses"
+    assert eq(o.density() * o.getVolume(), o.getMass()), "mass = density x volume at the parent's level"
+
+
 @lemma(overrides=OV, stubs=ST, gen=GEN3)
 def composite_mass_is_density_times_volume(k: int, a1: float, b1: float, v1: float, b2: float, c2: float, v2: float, a3: float, b3: float, c3: float, v3: float):
     """ArmiObject.density x Composite.getVolume = Composite.getMass, k = 1..3 real Component children."""
